@@ -47,7 +47,13 @@ def gen_case(rng):
         for _ in range(rng.randint(0, 12)):
             name = rng.choice(["t1.jsonl", "t2.jsonl", "t4.jsonl"])
             size = rng.choice([1, 1, 20, 200, 5000, 65536])
-            logs.append([name, {"turn": 1, "agent": a, "k": rng.randint(0, 9), "ms": 1.5, "body": rng.choice(["x", "é", "中", " "]) * size}])
+            pl = {"turn": 1, "agent": a, "k": rng.randint(0, 9), "ms": 1.5, "body": rng.choice(["x", "é", "中", " "]) * size}
+            r_ = rng.random()
+            if r_ < 0.08:
+                pl["nested"] = {"b": 1, "a": [1, {"d": None}]}
+            elif r_ < 0.14:
+                pl["__mixed__"] = rng.choice(["top-int", "nested-int", "none-key"])  # expanded by the stand-in (JSON cannot carry non-string keys)
+            logs.append([name, pl])
         deltas = [["node", f"n:{a}:{rng.choice('abc')}", "weight", rng.choice([0.1, -0.2, 0.3]), 1] for _ in range(rng.randint(0, 4))]
         specs[a] = {"logs": logs, "deltas": deltas, "utter": f"utter of {a} " + rng.choice(["", "ünï", "x" * 50])}
     sizes = sorted({sum(len(str(k)) + len(str(v)) for k, v in p.items()) + 2 for s in specs.values() for _, p in s["logs"]} or {30})
@@ -57,7 +63,10 @@ def gen_case(rng):
     # entry that falls back to state["graphs_by_agent"], or graphs_by_agent only
     layout = {a: rng.choice(["agents-dict", "agents-dict", "agents-obj", "record-without-graphs+gba", "gba-only"]) for a in agents}
     return {"agents": agents, "graphs": graphs, "specs": specs, "limit": limit if (limit is None or limit >= 1) else 1, "workers": workers, "layout": layout,
-            "turn_id": rng.choice([1, 1, 7, "x"]), "cadence": rng.choice([1, 1, 2]), "overlap": overlap}
+            "turn_id": rng.choice([1, 1, 7, "x"]), "cadence": rng.choice([1, 1, 2]), "overlap": overlap,
+            # optionally each agent's turn carries its own id (set by the compute phase), ascending in task order and straddling
+            # a digit boundary / zero
+            "turn_base": rng.choice([None, None, 7, 8, 9, 97, 99, -2, -1])}
 
 
 def make_standin(case, trace):
@@ -69,8 +78,20 @@ def make_standin(case, trace):
         spec = case["specs"][aid]
         dry = bool(getattr(ctx, "_dry_run_until_t4", False))
         trace.append(("dry" if dry else "full", aid))
+        if case.get("turn_base") is not None:
+            ctx.turn_id = case["turn_base"] + case["agents"].index(aid)
         for name, payload in spec["logs"]:
-            core._append_jsonl(name, dict(payload))
+            pl = dict(payload)
+            if case.get("turn_base") is not None:
+                pl["turn"] = ctx.turn_id
+            mixed = pl.pop("__mixed__", None)
+            if mixed == "top-int":
+                pl[3] = "int key"
+            elif mixed == "nested-int":
+                pl["nested"] = {1: "x", "b": 2}
+            elif mixed == "none-key":
+                pl[None] = 0
+            core._append_jsonl(name, pl)
         deltas = [ProposedDelta(d[0], d[1], d[2], float(d[3]), op_idx=d[4], idx=i) for i, d in enumerate(spec["deltas"])]
         t4 = NS(approved_deltas=deltas, rejected_ops=[], reasons=[], metrics={})
         if dry:
